@@ -241,7 +241,14 @@ class EscapeSequence(SpanToken):
 
     @classmethod
     def strip(cls, string):
-        return tokenizer.unescape(cls.pattern.sub(r'\1', string))
+        # piece by piece: an escaped '&' begins no character reference
+        result, prev_end = [], 0
+        for match in cls.pattern.finditer(string):
+            result.append(tokenizer.unescape(string[prev_end:match.start()]))
+            result.append(match.group(1))
+            prev_end = match.end()
+        result.append(tokenizer.unescape(string[prev_end:]))
+        return ''.join(result)
 
 
 class LineBreak(SpanToken):
